@@ -107,7 +107,8 @@ def r2_decoders(ctx, fam):
     f = m.method(P, '_thread')
     construct = P + '._thread'
     found = {}
-    for t in walk_own(f.node):
+    from ..sym import with_new_helpers
+    for t in [x for g in with_new_helpers(m, f) for x in walk_own(g.node)]:
         if not isinstance(t, ast.Try):
             continue
         for s in t.body:
